@@ -148,6 +148,13 @@ func scenC09(r *Run, job *Job) {
 	if t.Chance(1, 2) {
 		r.ReorderNum, r.ReorderDen = 1, 3
 	}
+	var latePoll time.Duration
+	if (cell.e1 == 3 || cell.e2 == 3) && t.Chance(1, 2) {
+		latePoll = []time.Duration{100 * time.Millisecond, 500 * time.Millisecond, time.Second}[t.Draw(3)]
+		if cell.trig == trTimeout {
+			latePoll += T
+		}
+	}
 	w := r.NewWorld(WorldCfg{TimeoutSec: timeoutSec, ExtFiles: ExtFiles(exts)}, job.Seed)
 	e := w.NewEngine()
 	e.Bound = time.Duration(4*timeoutSec+40) * time.Second
@@ -231,6 +238,10 @@ func scenC09(r *Run, job *Job) {
 		case 3:
 			// polls through invocation 1, receives the event of invocation 2 and then does not come back to next
 			b.Script, b.ThenHealthy = []Op{{Kind: "register"}, {Kind: "extnext"}, {Kind: "extnext"}}, false
+			if latePoll > 0 {
+				// ... until later: it asks for its next event while the teardown is already under way
+				b.Script = append(b.Script, Op{Kind: "stall", D: latePoll}, Op{Kind: "extnext"})
+			}
 		case 5:
 			if cell.trig == trFailure && !faultIdle {
 				b.DieDuringInv = 2
@@ -553,6 +564,22 @@ func c09Judge(r *Run, w *World, e *Engine, cell c09Cell, op *opResult, T time.Du
 		diedBefore := !p.Alive && p.DeathAt < S
 		if subscribed {
 			r.Check(nShut <= 1, "C09.event-count", "%s received %d SHUTDOWN events", p.Name, nShut)
+			// an accepted poll that was parked at some moment between the start of the teardown and the deadline, by a
+			// process that was alive then, must be answered with the event (the release is sticky)
+			if haveB && nShut == 0 {
+				for _, c := range a.Calls {
+					if c.Tag != "ext-next" || c.StartAt >= S+B-time.Millisecond || (c.Done && (c.EndAt < S || c.EndStep <= ep[0].Step)) || (c.Done && c.Err == nil && c.Status != 200) || (c.Done && c.Err == nil && c.Status == 200 && !strings.Contains(string(c.Body), "SHUTDOWN") && c.EndAt <= S) {
+						continue
+					}
+					from := c.StartAt
+					if from < S {
+						from = S
+					}
+					if p.Alive || p.DeathAt > from && (kill != nil && p.DeathAt >= kill.At) {
+						r.Failf("C09.event-missing", "%s subscribed to SHUTDOWN and parked in next from %s (teardown %s .. %s), but received no SHUTDOWN event", p.Name, fmtDur(from), fmtDur(S), fmtDur(S+B))
+					}
+				}
+			}
 			polling := a.Busy() || nShut > 0
 			if polling && !diedBefore && (p.Alive || p.DeathAt >= S) {
 				// it was parked in next (or came back): must have received the event, unless it died first
